@@ -328,7 +328,12 @@ def run_subcheck(pid: str, sc: SubCheck, tier: str, seed: int, shard: int, nshar
                 M = sc.machine(ctx, tier)
                 run_state_machine_as_test(hseed(dseed)(M), settings=_settings(n, sc.shrink, sc.steps.get(tier, 20)))
             else:
-                strat = sc.strategy(tier)
+                import inspect
+
+                if len(inspect.signature(sc.strategy).parameters) >= 3:
+                    strat = sc.strategy(tier, shard, nshards)
+                else:
+                    strat = sc.strategy(tier)
 
                 @hseed(dseed)
                 @_settings(n, sc.shrink)
